@@ -162,6 +162,7 @@ type Trace struct {
 	Notes       []string      `json:"notes,omitempty"`
 	Labels      map[string]int `json:"labels,omitempty"`
 	Probe       *ProbeRec     `json:"probe,omitempty"`
+	Fcx         *FcxResult    `json:"fcx,omitempty"`
 	Deadlock    string        `json:"deadlock,omitempty"` // bubble deadlock panic text on exit
 	Aborted     string        `json:"aborted,omitempty"`
 }
